@@ -1,6 +1,7 @@
 package main
 
 import (
+	"crypto/sha256"
 	"os/exec"
 	"golang.org/x/tools/go/ssa"
 	"encoding/json"
@@ -295,7 +296,14 @@ func runCheck(root string, args []string) int {
 	}
 	// thorough tier: bounded validation of A-KEYS on the real key builders/parsers (never counted as proved)
 	var bounded []map[string]interface{}
-	if _, usesKeys := E.Used["A-KEYS"]; usesKeys && tier == "thorough" {
+	keysChanged := false
+	if _, usesKeys := E.Used["A-KEYS"]; usesKeys && tier != "thorough" {
+		// quick tier: re-validate only when keys.go is not the exact file the bounded check was last recorded for
+		want, _ := os.ReadFile(filepath.Join(vd, "keylayer", "validated_keys_go.sha256"))
+		cur, err := os.ReadFile(filepath.Join(root, "x/alliance/types/keys.go"))
+		keysChanged = err != nil || strings.TrimSpace(string(want)) != fmt.Sprintf("%x", sha256.Sum256(cur))
+	}
+	if _, usesKeys := E.Used["A-KEYS"]; usesKeys && (tier == "thorough" || keysChanged) {
 		res := runKeyLayer(root, vd)
 		bounded = append(bounded, map[string]interface{}{
 			"name": "bounded:A-KEYS key layer (keylayer/zz_keylayer_test.go on the real x/alliance/types/keys.go)",
